@@ -27,7 +27,7 @@ Proof.
   intros o h w. induction imgs as [|[[[r0 c0] f0] i0] imgs IH]; intros s Hs Hall.
   - unfold pass3, imgs_paints. simpl. split; [exact Hs|]. split; [reflexivity|].
     intros i r c. split; [intros H; left; exact H|]. intros [H|[f []]]. exact H.
-  - unfold pass3, imgs_paints in *. cbn [flat_map]. rewrite exec_list_app.
+  - unfold pass3, imgs_paints in *. cbn [flat_map]. rewrite exec_list_app, image_cmds_paint_image.
     destruct (Hall r0 c0 f0 i0 (or_introl eq_refl)) as (Hr & Hc & Hw).
     destruct (exec_paint_image o h w r0 c0 f0 i0 s Hs Hr Hc Hw) as (Hs1 & Hg1 & Hp1).
     set (s1 := exec_list o s (paint_image o r0 c0 f0 i0)) in *.
@@ -45,7 +45,7 @@ Proof.
 Qed.
 
 Lemma valid_inside : forall o h w p, paint_valid o h w p -> paint_inside o h w p.
-Proof. intros o h w [r c f ch|r c f n]; simpl; intros; lia. Qed.
+Proof. intros o h w [r c f ch|r c f n|r c f n]; simpl; intros; lia. Qed.
 
 Lemma img_paints_conform : forall o h w nw r0 c0 f i p,
   Good o h w nw ->
@@ -74,6 +74,7 @@ Section OneFrame.
   Variable cmds : list cmd.
   Variable imgs : list (nat * nat * face * N).
   Hypothesis Hsp : cw o space = 1.
+  Hypothesis Hlaw : erase_law o.
   Hypothesis Gold : Good o h w old.
   Hypothesis GN : Good o h w nw.
   Hypothesis Hu : u = MEmpty \/ (u = MDamaged /\ old = gmake h w cell_default).
@@ -115,7 +116,7 @@ Section OneFrame.
     { apply Forall_forall. intros p Hp. apply ps_all. auto. }
     assert (Hcons : consistent (mktracked None None) s1).
     { split; simpl; intros; discriminate. }
-    destruct (exec_emit_all o ps s1 h w (mktracked None None) Hsp Hs1 Hcons Hvalid) as (Hs2 & Hg2 & Hp2).
+    destruct (exec_emit_all o ps s1 h w (mktracked None None) Hsp Hlaw Hs1 Hcons Hvalid) as (Hs2 & Hg2 & Hp2).
     set (s2 := exec_list o s1 (emit_all o (mktracked None None) ps)) in *.
     assert (Hok2 : forall r c, r < h -> c < w -> redrawn o h w nw dec r c = false -> okc T (sgrid s2) r c).
     { intros r c Hr Hc Hred. rewrite Hg2.
@@ -162,7 +163,7 @@ Section OneFrame.
           pose proof Hi as Hi2. apply img_at_some in Hi2. destruct Hi2 as (x & Hx & Hk & Hf).
           assert (Hmem : In (r0, c0, f, i) imgs) by (apply (sp_imgs HP); eauto).
           unfold in_rect in Hin. apply andb_true_iff in Hin. rewrite !in_range_true in Hin.
-          exists (PBlanks (Nat.min r (h - 1)) c0 f (Nat.min (snd (isz o i)) (w - c0))). split.
+          exists (PErase (Nat.min r (h - 1)) c0 f (Nat.min (snd (isz o i)) (w - c0))). split.
           -- unfold imgs_paints. apply in_flat_map. exists (r0, c0, f, i). split; auto.
              unfold img_paints. apply in_map_iff. exists r. split; auto. apply in_seq. lia.
           -- simpl. rewrite Nat.min_l by lia. split; auto. lia.
